@@ -8,7 +8,7 @@ from more_executors._impl.common import (
     copy_future_exception,
     try_set_result,
 )
-from .base import f_return, chain_cancel, weak_callback
+from .base import f_return, chain_cancel, weak_callback, notify_cancel
 from .check import ensure_futures
 from ..metrics import track_future
 
@@ -40,6 +40,7 @@ class Zipper(object):
         self.done = False
         self.lock = Lock()
         self.count_remaining = len(self.fs)
+        notify_cancel(self.out)
 
         for (idx, future) in enumerate(self.fs):
             chain_cancel(self.out, future)
@@ -68,9 +69,7 @@ class Zipper(object):
                     set_result = True
 
         if cancel:
-            if self.out.cancel():
-                # wake anyone blocked in wait() / as_completed() on the output
-                self.out.set_running_or_notify_cancel()
+            self.out.cancel()
         if set_result:
             try_set_result(self.out, maketuple(self.fs))
         if set_exception:
